@@ -4,7 +4,10 @@
     {"op":"c11.session","init":<dataset>,"ops":[<op>...]}
   answer: one entry per op  {"args":<resolved arguments>,"out":"inadmissible" | {"state":[<dataset>...]}
                              | {"query":...}}
-  The workspace is a list of datasets; an op addresses one of them by `at` (mod length).
+  (a query and a refused call also carry "ws": the whole workspace, reported again).
+  The workspace is a list of datasets — values; an op addresses one of them by `at` (mod length);
+  a value-returning op with "keep": true leaves its source in place and inserts its results after
+  it (`applyKeep`; frame theorems `Rsa.Props.C11.applyOp_frame`, `sortBy_frame`, `keep_frame`).
   Arguments are symbolic (k-th key of a descriptor table in sorted order, value at a
   position of that column) and are resolved here against the current model state; the
   Python adaptor resolves them the same way against the real objects and the resolved
@@ -192,17 +195,27 @@ def ofApply (ws : List D) (o : Op) : Out :=
   | none => .inadm
   | some ws' => .state ws'
 
+/-- a value-returning operation with `"keep": true`: the caller keeps the source, the results are
+    inserted after it (`applyKeep`, frame proved in `Rsa.Props.C11.keep_frame`) -/
+def ofApplyK (keep : Bool) (ws : List D) (i : Nat) (o : Op) : Out :=
+  if keep then
+    match applyKeep ws i o with
+    | none => .inadm
+    | some ws' => .state ws'
+  else ofApply ws o
+
 /-- one step: resolved arguments and outcome -/
 def step (ws : List D) (o : Json) : R (Json × Out) := do
   let name ← fld o "name" >>= asStr
   if ws.isEmpty then return (Json.null, .inadm)
+  let keep := boolD o "keep"
   let i := natD o "at" % ws.length
   let some d := ws[i]? | return (Json.null, .inadm)
   let k := natD o "k"
   let ok := nonEmpty d
   let args (kvs : List (String × Json)) : Json := obj (("at", ofNat i) :: kvs)
   match name with
-  | "copy" => pure (args [], ofApply ws (.copy i))
+  | "copy" => pure (args [], ofApplyK keep ws i (.copy i))
   | "pick" => pure (args [], ofApply ws (.pick i))
   | "merge" =>
     -- datasets of different classes are rejected by `merge_datasets` (ValueError)
@@ -217,17 +230,17 @@ def step (ws : List D) (o : Json) : R (Json × Out) := do
   | "split_obs" =>
     match pickKey d.obs k with
     | some by_ => pure (args [("by", Json.str by_)],
-        if ok && byOk d.obs by_ then ofApply ws (.splitObs i by_) else .inadm)
+        if ok && byOk d.obs by_ then ofApplyK keep ws i (.splitObs i by_) else .inadm)
     | none => pure (args [], .inadm)
   | "split_channel" =>
     match pickKey d.chan k with
     | some by_ => pure (args [("by", Json.str by_)],
-        if ok && byOk d.chan by_ then ofApply ws (.splitChan i by_) else .inadm)
+        if ok && byOk d.chan by_ then ofApplyK keep ws i (.splitChan i by_) else .inadm)
     | none => pure (args [], .inadm)
   | "split_time" =>
     match pickKey d.time k with
     | some by_ => pure (args [("by", Json.str by_)],
-        if ok && d.temporal && byOk d.time by_ then ofApply ws (.splitTime i by_) else .inadm)
+        if ok && d.temporal && byOk d.time by_ then ofApplyK keep ws i (.splitTime i by_) else .inadm)
     | none => pure (args [], .inadm)
   | "subset_obs" | "subset_channel" =>
     let t := if name == "subset_obs" then d.obs else d.chan
@@ -242,7 +255,7 @@ def step (ws : List D) (o : Json) : R (Json × Out) := do
                      ("scalar", Json.bool (boolD o "scalar"))]
       if !ok || (boolD o "scalar" && vals.isEmpty) || hasNa col then pure (a, .inadm)
       else
-        pure (a, ofApply ws (if name == "subset_obs" then .subsetObs i by_ vals else .subsetChan i by_ vals))
+        pure (a, ofApplyK keep ws i (if name == "subset_obs" then .subsetObs i by_ vals else .subsetChan i by_ vals))
   | "subset_time" =>
     match pickKey d.time k with
     | none => pure (args [], .inadm)
@@ -262,7 +275,7 @@ def step (ws : List D) (o : Json) : R (Json × Out) := do
         | _, _ => x
       let (lo, hi) := (shift lo (natD o "lo_off"), shift hi (natD o "hi_off"))
       let a := args [("by", Json.str by_), ("lo", ofLbl lo), ("hi", ofLbl hi)]
-      if ok && d.temporal && !hasNa col then pure (a, ofApply ws (.subsetTime i by_ lo hi))
+      if ok && d.temporal && !hasNa col then pure (a, ofApplyK keep ws i (.subsetTime i by_ lo hi))
       else pure (a, .inadm)
   | "sort_by" =>
     match pickKey d.obs k with
@@ -274,7 +287,7 @@ def step (ws : List D) (o : Json) : R (Json × Out) := do
     | some by_ =>
       let a := args [("by", Json.str by_)]
       if !(ok && byOk d.obs by_ && dsClean d) then pure (a, .inadm)
-      else if groupsOf d by_ ≥ 2 then pure (a, ofApply ws (.oddEven i by_))
+      else if groupsOf d by_ ≥ 2 then pure (a, ofApplyK keep ws i (.oddEven i by_))
       else
         -- a single group: `merge_datasets([])` has nothing to return; the model's `oddEven` is
         -- `none` for that reason and the real call must not return a result either
@@ -288,7 +301,7 @@ def step (ws : List D) (o : Json) : R (Json × Out) := do
         | some parts => parts.all (fun p => groupsOf p l2 ≥ 2)
         | none => false
       if !(ok && byOk d.obs l1 && byOk d.obs l2 && dsClean d) then pure (a, .inadm)
-      else if fine then pure (a, ofApply ws (.nestedOddEven i l1 l2))
+      else if fine then pure (a, ofApplyK keep ws i (.nestedOddEven i l1 l2))
       else
         -- some level-1 group has a single level-2 group: its odd/even split is rejected
         pure (a, if (nestedOddEven l1 l2 d).isNone then .rejected else .inadm)
@@ -303,15 +316,15 @@ def step (ws : List D) (o : Json) : R (Json × Out) := do
       let a := args [("by", Json.str by_), ("bins", ofList (ofList ofLbl) bins)]
       if ok && d.temporal && isIntCol col && !col.isEmpty && !bins.isEmpty
           && bins.all (fun b => !b.isEmpty) then
-        pure (a, ofApply ws (.binTime i by_ bins))
+        pure (a, ofApplyK keep ws i (.binTime i by_ bins))
       else pure (a, .inadm)
   | "time_as_observations" =>
     match pickKey d.time k with
     | some by_ => pure (args [("by", Json.str by_)],
-        if ok && d.temporal && byOk d.time by_ then ofApply ws (.timeAsObs i by_) else .inadm)
+        if ok && d.temporal && byOk d.time by_ then ofApplyK keep ws i (.timeAsObs i by_) else .inadm)
     | none => pure (args [], .inadm)
   | "time_as_channels" =>
-    pure (args [], if ok && d.temporal then ofApply ws (.timeAsChan i) else .inadm)
+    pure (args [], if ok && d.temporal then ofApplyK keep ws i (.timeAsChan i) else .inadm)
   | "df" | "df_default" =>
     match pickKey d.chan k with
     | some key =>
@@ -319,7 +332,7 @@ def step (ws : List D) (o : Json) : R (Json × Out) := do
       -- the representable classes (`dfRepresentable`, `dfDefaultRepresentable`) are part of the
       -- proved model: `applyOp` answers `none` outside them
       if ok && !d.temporal then
-        pure (a, ofApply ws (if name == "df" then .df i key else .dfDefault i key))
+        pure (a, ofApplyK keep ws i (if name == "df" then .df i key else .dfDefault i key))
       else pure (a, .inadm)
     | none => pure (args [], .inadm)
   | "average_by" =>
@@ -359,8 +372,9 @@ def session (j : Json) : R Json := do
     let (a, out) ← step ws o
     match out with
     | .inadm => outs := outs.push (obj [("args", a), ("out", Json.str "inadmissible")])
-    | .rejected => outs := outs.push (obj [("args", a), ("out", Json.str "rejected")])
-    | .query q => outs := outs.push (obj [("args", a), ("out", obj [("query", q)])])
+    -- a refused call and a query leave the workspace as it is: every object is reported again
+    | .rejected => outs := outs.push (obj [("args", a), ("out", Json.str "rejected"), ("ws", ofList ofDS ws)])
+    | .query q => outs := outs.push (obj [("args", a), ("out", obj [("query", q)]), ("ws", ofList ofDS ws)])
     | .state ws' =>
       ws := ws'
       outs := outs.push (obj [("args", a), ("out", obj [("state", ofList ofDS ws')])])
